@@ -370,5 +370,6 @@ def run_descriptor(desc, max_points=12):
             if "C18" not in f["props"]:
                 f["props"].append("C18")
     stats["wall"] = time.time() - t0
-    dg = canon.jdigest({"ans": {str(k): v for k, v in ansP.items()}, "fired": stats["fired"]})
+    dg = canon.jdigest({"ans": {str(k): v for k, v in ansP.items()}, "fired": stats["fired"],
+                        "findings": [[f["oracle"], f["props"], f.get("point")] for f in findings]})
     return {"findings": findings, "stats": stats, "digest": dg, "checked_points": len(points)}
